@@ -1,59 +1,80 @@
 import GoUefi.Properties.C03g
+import GoUefi.Properties.C04g
 import GoUefi.Properties.C02
 /-!
-# C02 (generated tie) — the loop of `PECOFFBinary.Verify`, as the source has it now
+# C02 (generated tie) — `PECOFFBinary.Verify` and `(*Authenticode).verifyDigest`, as the source has them now
 
-`authenticode.PECOFFBinary.Verify` (and `Signatures`, which it calls) as translated from authenticode/checksum.go on
-every run; `ParseAuthenticode`, `(*Authenticode).verifyDigest`, `makeSectionReader` and the digest function of the
-standard library are external parameters, the closure `imageDigest` with its memo map is translated (modelling: top and
-section 5 of `Properties/C03g.lean`).  `C03g_verify` says which entry decides for ALL values of the externals whose
-`verifyDigest` reaches the closure's map only by calling the closure (`CallsOnly`); here the statement of `C02_sound` is
-transported to the translated loop for externals that answer as the model's parser and verifier do.
+`authenticode.PECOFFBinary.Verify` (and `Signatures`, which it calls), its closure `imageDigest` with the memo map, AND
+`(*Authenticode).verifyDigest` with the `pkcs7.PKCS7.Verify` it ends in are translated from the source on every run;
+`ParseAuthenticode`, `makeSectionReader`, the digest function of the standard library and pkcs7's `signerinfo.verify` are
+external parameters (modelling: top and section 5 of `Properties/C03g.lean`).  NO HYPOTHESIS ON AN EXTERNAL is left in
+the characterisation: `C03g_verify` / `C02g_verify_true_iff` say which entry decides and what success means for ALL
+values of the externals; `C02g_sound` transports the statement of `C02_sound` to the translated code for externals that
+answer as the model's parser, SHA-256 and signer check do.
 -/
 namespace GoUefi.C02
 open GoUefi GoUefi.Gen GoUefi.C03
 
-/-- **`C02_sound` for the translated `Verify`**: when `verifyDigest` reaches the closure's map only by calling the closure
-    (`CallsOnly`) and the externals answer as `Impl.parseAuthenticode` / `Impl.Auth.verify` do (hypothesis `hext`, as in
-    `C03g_verify_refines`: every parsed entry, verified against the digest function of this image, gives the model's
-    outcome on the model's hash stream — `C03g_verifyDigest_model`), the translated `Verify` returns `(true, nil)` only
-    if some entry of the certificate table parses as Authenticode, names SHA-256, embeds the SHA-256 of this image's
-    hash stream, and its PKCS#7 verifies under the certificate -/
+/-- **`C02_sound` for the translated `Verify`**: when the bytes of `makeSectionReader(hashContent)` are the model's hash
+    stream, the digest external under `crypto.SHA256` is the model's SHA-256, and `ParseAuthenticode` answers as
+    `Impl.parseAuthenticode` does (an entry parses in the translation exactly when it does in the model; the parsed value
+    carries the model's object identifier and digest, and its translated `Pkcs.Verify` gives the model's outcome — the
+    hypotheses of `C03g_verify_refines`), the translated `Verify` returns `(true, nil)` only if some entry of the
+    certificate table parses as Authenticode, names SHA-256, embeds the SHA-256 of this image's hash stream, and its
+    PKCS#7 verifies under the certificate -/
 theorem C02g_sound (fuel : Nat) (X : authenticode.Ext) (p : authenticode.PECOFFBinary) (cert : X509Cert)
     (C : Crypto) (certsOk : Bytes → Bool) (c : Cert) (parts : List Impl.Part) (regular : Bool)
-    (hX : CallsOnly X)
     (hf : p.certTable.length < fuel)
-    (hext : ∀ b : List UInt8,
+    (hstream : (X.makeSectionReader p.hashContent).content = Impl.hashStream (absP p parts regular))
+    (hsha : ∀ bs, X.crypto_Hash_Sum 5 bs = C.sha256 bs)
+    (hparse : ∀ b : List UInt8,
       match Impl.parseAuthenticode certsOk b with
       | none => (X.ParseAuthenticode b).2.isSome
       | some a => (X.ParseAuthenticode b).2 = none ∧
-          outcomeOf (verifyDigestOf X (X.ParseAuthenticode b).1 cert (imageDigest X p)) =
-            a.verify C c (Impl.hashStream (absP p parts regular)))
+          (X.ParseAuthenticode b).1.Algid.Algorithm = a.alg.map Int.ofNat ∧
+          (X.ParseAuthenticode b).1.Digest = a.digest ∧
+          outcomeOf ((X.ParseAuthenticode b).1.Pkcs.Verify X.pkcs7 cert) = a.pkcs.verify C c)
     (h : authenticode.PECOFFBinary.Verify fuel X p cert = (true, none)) :
     ∃ w ws', ((absP p parts regular).signatures = .ok ws' ∧ w ∈ ws') ∧
       ∃ a, Impl.parseAuthenticode certsOk w.cert = some a ∧ a.alg = Impl.oidSha256 ∧
         a.digest = C.sha256 (Impl.hashStream (absP p parts regular)) ∧ a.pkcs.verify C c = .ok true := by
-  have hr := C03g_verify_refines fuel X p cert C certsOk c parts regular hX hf hext
+  have hr := C03g_verify_refines fuel X p cert C certsOk c parts regular hf hstream hsha hparse
   rw [h] at hr
   exact C02_sound hr.symm
 
-/-- … and the first-entry-decides characterisation, for every value of the externals with `CallsOnly`
-    (`C03g_verify_true_iff`): success means that some entry parses and `verifyDigest` accepts it against THE DIGEST
-    FUNCTION OF THIS IMAGE (the digest, under the algorithm asked for, of the bytes of `makeSectionReader(hashContent)`)
-    while every entry before it parsed and answered `(false, nil)` against that same function -/
-theorem C02g_verify_true_iff (fuel : Nat) (X : authenticode.Ext) (p : authenticode.PECOFFBinary) (cert : X509Cert)
-    (hX : CallsOnly X) :
+/-- **what success of the translated `Verify` means — for every receiver, every certificate and EVERY value of the
+    externals**: `Verify` returns `(true, nil)` exactly when `Signatures()` succeeds and the table walks to an entry `w`
+    that
+    * parses as Authenticode (`ParseAuthenticode`, external),
+    * names SHA-256 as its digest algorithm,
+    * carries a 32-byte digest EQUAL to the SHA-256 (the digest external under `crypto.SHA256` = 5) of the image's hash
+      stream (the bytes of `makeSectionReader(hashContent)`),
+    * and whose PKCS#7 verifies under the certificate — `C04g_verify_true_iff`: some signer entry that names the
+      certificate (issuer bytes and serial number) is accepted by `signerinfo.verify` (external) over the PKCS#7's content
+      info, every earlier entry that names it having answered `(false, nil)` —
+    while every entry in front of `w` parsed and answered `(false, nil)` (`C03.entryVerdict_none_iff`: the same first
+    three facts, with a PKCS#7 that answers `(false, nil)`) -/
+theorem C02g_verify_true_iff (fuel : Nat) (X : authenticode.Ext) (p : authenticode.PECOFFBinary) (cert : X509Cert) :
     authenticode.PECOFFBinary.Verify fuel X p cert = (true, none) ↔
       ∃ ws, p.Signatures fuel = (ws, none) ∧ ∃ pre w post, ws = pre ++ w :: post ∧
         (∀ x ∈ pre, entryVerdict X (imageDigest X p) cert x = none) ∧
         (X.ParseAuthenticode w.Certificate).2 = none ∧
-        verifyDigestOf X (X.ParseAuthenticode w.Certificate).1 cert (imageDigest X p) = (true, none) :=
-  C03g_verify_true_iff fuel X p cert hX
+        (X.ParseAuthenticode w.Certificate).1.Algid.Algorithm = pkcs7.OIDDigestAlgorithmSHA256 ∧
+        (X.ParseAuthenticode w.Certificate).1.Digest.length = 32 ∧
+        (X.ParseAuthenticode w.Certificate).1.Digest =
+          X.crypto_Hash_Sum 5 (X.makeSectionReader p.hashContent).content ∧
+        ∃ spre s spost, (X.ParseAuthenticode w.Certificate).1.Pkcs.SignerInfo = spre ++ s :: spost ∧
+          s.isCertificate cert = true ∧
+          X.pkcs7.signerinfo_verify s cert (X.ParseAuthenticode w.Certificate).1.Pkcs.ContentInfo = (true, none) ∧
+          ∀ s' ∈ spre, s'.isCertificate cert = true →
+            X.pkcs7.signerinfo_verify s' cert (X.ParseAuthenticode w.Certificate).1.Pkcs.ContentInfo = (false, none) := by
+  rw [C03g_verify_true_iff fuel X p cert]
+  simp only [C04.C04g_verify_true_iff]
 
 example : authenticode.PECOFFBinary.Verify 17 X0 (p0.AppendSignature [1, 2, 3]).1 certA = (true, none) := by
   decide +kernel
-/-- … and the right-hand side of `C02g_verify_true_iff` for it (`X0` satisfies `CallsOnly`) -/
-example := (C02g_verify_true_iff 17 X0 (p0.AppendSignature [1, 2, 3]).1 certA X0_callsOnly).mp (by decide +kernel)
+/-- … and the right-hand side of `C02g_verify_true_iff` for it -/
+example := (C02g_verify_true_iff 17 X0 (p0.AppendSignature [1, 2, 3]).1 certA).mp (by decide +kernel)
 
 end GoUefi.C02
 
